@@ -523,6 +523,15 @@ def c11(ctx):
         ch = chr(cp)
         for c_ in ctxs:
             texts.append(c_.format(ch))
+    # long runs (a tokenizer that scans a bounded window would cut them): digit / letter runs of
+    # 31..1025 characters at the start, after another token and in the middle of the input
+    for n_ in (31, 32, 33, 40, 63, 64, 65, 100, 257, 1025) if quick else (31, 32, 33, 40, 63, 64, 65, 100, 127, 128, 129,
+                                                                             255, 256, 257, 1023, 1024, 1025, 4097):
+        digits = ("1234567890" * (n_ // 10 + 1))[:n_]
+        letters = ("abcdefghijklmnopqrtuvwxyz" * (n_ // 25 + 1))[:n_]
+        for run in (digits, digits[: n_ // 2] + "." + digits[n_ // 2 + 1:], letters, letters[:-3] + "sgn", "sgn" + letters[3:]):
+            for c_ in ("{}", "x + {}", "4 + {} - 2", "({})", " {}", "sgn({})"):
+                texts.append(c_.format(run))
     texts = list(dict.fromkeys(texts))
     ctx.notes["characters_in_context"] = {"code_points": len(cps), "contexts": len(ctxs), "texts": len(texts) - n_before}
     items = [(t, p) for t in texts for p in (False, True)]
